@@ -74,9 +74,8 @@ impl<'a> Class<'a> {
     }
 
     pub fn is_derived_from(&self, base: &Class) -> bool {
-        self.is_derived_from_pedantic(base)
-            .and_then(|r| r.ok())
-            .is_some()
+        // an unresolvable super class shouldn't hide the other (resolvable) base classes
+        self == base || self.base_classes().any(|r| r.is_ok_and(|c| &c == base))
     }
 
     fn is_derived_from_pedantic(&self, base: &Class) -> Option<Result<(), TypeMapError>> {
